@@ -248,17 +248,10 @@ theorem declOK_some_ne_nil (s u : Str) (h : declOK (some s, u) = true) : u ≠ [
 
 theorem reset_ok (env : NsEnv) (d : Option Str) (tag : EName) (M : NsMap) (hM : MapOK env d M) :
     MapOK env d (resetDefaultNamespace tag M) := by
-  refine ⟨?_, ?_, ?_, ?_, ?_, ?_⟩
+  refine ⟨?_, ?_, ?_, ?_⟩
   · rw [reset_eq]; split
     · exact NoDupKeys_dset M none [] hM.nodup
     · exact hM.nodup
-  · intro k hk
-    rw [reset_length] at hk
-    rw [reset_dget_some]
-    exact hM.fresh k hk
-  · intro e he u h
-    rw [reset_dget_some] at h
-    exact hM.enumc e he u h
   · intro e he
     rcases reset_mem tag M e he with h | h
     · exact hM.decl e h
